@@ -538,6 +538,16 @@ func (x *fnv) collectWrites(n ast.Node, w *writeSet) {
 				}
 			}
 		case *ast.UnaryExpr:
+			if nd.Op == token.ARROW && x.fc != nil {
+				for _, rg := range x.fc.RecvGhosts {
+					if rg.Chan == types.ExprString(nd.X) {
+						if w.ghosts == nil {
+							w.ghosts = map[string]bool{}
+						}
+						w.ghosts[rg.Name] = true
+					}
+				}
+			}
 			if nd.Op == token.AND {
 				if cl, ok := ast.Unparen(nd.X).(*ast.CompositeLit); ok {
 					// &T{...}: initialises the cells of a fresh object
@@ -1369,6 +1379,19 @@ func (x *fnv) chanRecv(s *State, ch Value, pos token.Pos, text string) Value {
 			env.vars["value"] = v
 			s.Assume(env.assumption(cl.Expr))
 			x.assumeNote("channel invariant assumed for values received from " + text + ": " + cl.Src)
+		}
+		for _, rg := range x.fc.RecvGhosts {
+			if rg.Chan != text {
+				continue
+			}
+			old, ok := s.ghost[rg.Name]
+			if !ok {
+				panic(specFail{"undeclared ghost variable " + rg.Name})
+			}
+			env := x.newSpecEnv(s, x.entry, x.pkg.PkgPath)
+			x.bindLocals(env, nil)
+			env.vars["value"] = v
+			s.ghost[rg.Name] = x.coerce(s, env.eval(rg.Clause.Expr), old.T)
 		}
 	}
 	return v
